@@ -513,6 +513,23 @@ def collision_groups():
         out.append(('HalfLine', (('HalfLine/PV', m1, e2, 'float'),), (('HalfLine/PV', m2, e2, 'float'),)))
         out.append(('Line', (('Line/PV', m1, e2, 'float'),), (('Line/PV', m2, e2, 'float'),)))
         out.append(('Plane', (('Plane/PN', m1, e1, 'float'),), (('Plane/PN', m2, e1, 'float'),)))
+        # bodies: two boxes that differ only by -1 <-> -2 in one coordinate of four vertices
+        for other in ((0, 1),):
+            def boxv(lo):
+                vs = []
+                for a_ in (lo, 0):
+                    for b_ in other:
+                        for c_ in other:
+                            v = [0, 0, 0]
+                            v[ax], v[(ax + 1) % 3], v[(ax + 2) % 3] = a_, b_, c_
+                            vs.append(tuple(v))
+                return X.Ph(vs)
+            for K, K2 in ((boxv(-1), boxv(-2)), (boxv(-2), boxv(-1))):
+                f1 = tuple(tuple(c) for c in perm.body_faces(K))
+                f2 = tuple(tuple(c) for c in perm.body_faces(K2))
+                out.append(('ConvexPolyhedron', (('Polyhedron', f1, tuple(range(len(f1))), (0,) * len(f1), 'float'),
+                                                 ('Polyhedron', f1, tuple(reversed(range(len(f1)))), (1,) * len(f1), 'int')),
+                            (('Polyhedron', f2, tuple(range(len(f2))), (0,) * len(f2), 'float'),)))
         # bodies: a pyramid over the quadrilateral, apex on the third axis
         e3 = E3[(ax + 2) % 3]
         for q, q2 in ((quad, quad2), (quad2, quad)):
